@@ -83,7 +83,7 @@ def r2(ctx):
         for lop, qop in ops:
             sl, _p = store_method_for_opcode(ctx, hmeth, argn, lop)
             sq, _p = store_method_for_opcode(ctx, hmeth, argn, qop)
-            rep.check(sl == sq and len(sl) == 1, "store-method:%#04x/%#04x" % (lop, qop), "both reach MemcStore::%s" % sorted(sl), "opcodes %#04x and %#04x reach different store methods (%s vs %s): the quiet variant has a different effect" % (lop, qop, sorted(sl), sorted(sq)), f.one(HANDLER + "::" + hmeth).loc())
+            rep.check(sl == sq and len(sl) == 1, "store-method:%#04x/%#04x" % (lop, qop), "both reach MemcStore::%s" % sorted(sl), "opcodes %#04x and %#04x reach different store methods (%s vs %s): the quiet variant has a different effect" % (lop, qop, sorted(sl), sorted(sq)), safe_loc(f, HANDLER + "::" + hmeth))
     return rep
 
 
